@@ -40,7 +40,14 @@ PoolListData == <<MkList(TData, <<>>), MkList(TData, <<MkData(DI(1))>>),
 PoolListPair == <<MkList(TPair(TData, TData), <<>>),
                  MkList(TPair(TData, TData), <<MkPair(TData, TData, MkData(DI(1)), MkData(DB(<<2>>)))>>)>>
 PoolPair == <<MkPair(TInt, TBool, I(4), MkBool(FALSE)), MkPair(TData, TData, MkData(DI(1)), MkData(DI(2)))>>
-PoolListAny == PoolListInt \o <<MkList(TData, <<MkData(DI(1))>>), MkList(TBool, <<>>)>>
+PoolListAny == PoolListInt \o <<MkList(TData, <<MkData(DI(1))>>), MkList(TBool, <<>>),
+                               MkList(TList(TBs), <<>>), MkList(TList(TInt), <<MkList(TInt, <<I(3)>>)>>),
+                               MkList(TPair(TData, TData), <<>>), MkList(TPair(TInt, TBs), <<>>)>>
+\* heads for mkCons: the element type must agree with the list's DEEPLY (not only its outer constructor)
+PoolConsHead == <<MkData(DI(0)), MkData(DL(<<>>)), I(5), MkBool(TRUE),
+                  MkList(TInt, <<I(1), I(2)>>), MkList(TBs, <<MkBs(<<1>>)>>), MkList(TData, <<>>),
+                  MkPair(TInt, TBs, I(1), MkBs(<<0>>)), MkPair(TData, TData, MkData(DI(1)), MkData(DI(2))),
+                  MkPair(TInt, TInt, I(1), I(2))>>
 
 ConstPool(kind) ==
     CASE kind = "int" -> PoolInt
@@ -55,6 +62,7 @@ ConstPool(kind) ==
       [] kind = "lpair" -> PoolListPair
       [] kind = "pair" -> PoolPair
       [] kind = "list" -> PoolListAny
+      [] kind = "conshead" -> PoolConsHead
       [] kind = "any" -> <<I(1), MkUnit>>
       [] kind = "any1" -> <<I(1)>>
 
@@ -66,7 +74,7 @@ WrongFor(kind) ==
              ELSE IF kind \in {"any", "any1"} THEN <<>>
              ELSE IF kind = "lint" THEN <<I(1), MkUnit, MkList(TData, <<>>), MkList(TData, <<MkData(DI(0))>>)>>
              ELSE IF kind = "ldata" THEN <<I(1), MkUnit, MkList(TInt, <<I(0)>>), MkList(TInt, <<>>)>>
-             ELSE IF kind \in {"lpair", "list"} THEN <<I(1), MkUnit>>
+             ELSE IF kind \in {"lpair", "list", "conshead"} THEN <<I(1), MkUnit>>
              ELSE <<I(1), MkUnit, MkList(TInt, <<I(1)>>)>>)
     \o (IF kind = "any1" THEN <<Lam(Var(1))>> ELSE <<Lam(Var(1)), Delay(Con(I(0))), Bi("addInteger")>>)
 
@@ -93,7 +101,7 @@ Sig(f) ==
       [] f = "trace" -> <<"str", "any">>
       [] f \in {"fstPair", "sndPair"} -> <<"pair">>
       [] f = "chooseList" -> <<"list", "any", "any">>
-      [] f = "mkCons" -> <<"data", "list">>
+      [] f = "mkCons" -> <<"conshead", "list">>
       [] f \in {"headList", "tailList", "nullList"} -> <<"list">>
       [] f = "dropList" -> <<"ints", "list">>
       [] f = "chooseData" -> <<"data", "any1", "any1", "any1", "any1", "any1">>
@@ -156,10 +164,19 @@ ForceChoices(f) ==
     THEN {n \in {BuiltinForces(f) - 1, BuiltinForces(f), BuiltinForces(f) + 1} : n >= 0}
     ELSE {BuiltinForces(f)}
 
+\* results of one builtin fed to another: an ill-typed list must never be built, so the consumers below never meet one
+Consumers == <<Bi("mapData"), Bi("listData"), Force(Bi("headList")), Force(Bi("tailList")), Force(Bi("nullList")),
+               App(Force(Bi("dropList")), Con(I(1)))>>
+ChainTerm(c, h, l) == App(Consumers[c], App(App(Force(Bi("mkCons")), Con(PoolConsHead[h])), Con(PoolListAny[l])))
+
 VARIABLES st, t0
 vars == <<st, t0>>
 
-Init == \E f \in Groups[Group] : \E ix \in IxTuples(Sig(f), 1) : \E n \in ForceChoices(f) : \E s \in Sems :
+Init == IF Group = "chains"
+        THEN \E c \in 1..Len(Consumers), h \in 1..Len(PoolConsHead), l \in 1..Len(PoolListAny), s \in Sems :
+                t0 = ChainTerm(c, h, l) /\ st = InitState(ChainTerm(c, h, l), s)
+        ELSE
+        \E f \in Groups[Group] : \E ix \in IxTuples(Sig(f), 1) : \E n \in ForceChoices(f) : \E s \in Sems :
             /\ Len(Sig(f)) = BuiltinArity(f)      \* the signature table agrees with the arity table
             /\ t0 = ApplyTerms(ForceN(Bi(f), n), ArgsAt(Sig(f), ix))
             /\ st = InitState(t0, s)
